@@ -60,6 +60,13 @@ func c04Callees() map[string]interface{} {
 			s, err := h.Block()
 			return template.HTML(s), err
 		},
+		"c_again": func(h plush.HelperContext) (template.HTML, error) {
+			fn, ok := h.Value("contentFor:a").(func(hctx.Map) (template.HTML, error))
+			if !ok {
+				return "", errors.New("nothing stored")
+			}
+			return fn(nil)
+		},
 		"c_customhc": func(h customHC) string {
 			if h.HelperContext == nil {
 				return "nil"
@@ -114,6 +121,14 @@ func c04Ctx() *plush.Context {
 	for k, v := range c04Callees() {
 		ctx.Set(k, v)
 	}
+	var kept *plush.HelperContext
+	ctx.Set("c_keep", func(h plush.HelperContext) string { kept = &h; return "" })
+	ctx.Set("c_replayKept", func(h plush.HelperContext) (string, error) {
+		if kept == nil {
+			return "", errors.New("nothing kept")
+		}
+		return kept.BlockWith(h.New())
+	})
 	ctx.Set("partialFeeder", func(name string) (string, error) {
 		if name == "ok" {
 			return "P<%= 1 %>", nil
@@ -296,6 +311,8 @@ func c04Run(b *core.B) {
 		"<% contentFor(\"c\") { %>a<%= contentOf(\"c\") %><% } %><%= contentOf(\"c\") %>",
 		"<% contentFor(\"a\") { %><%= contentOf(\"b\") %><% } %><% contentFor(\"b\") { %><%= contentOf(\"a\") %><% } %><%= contentOf(\"a\") %>",
 		"<% contentFor(\"c\") { %><%= cap() { %><%= contentOf(\"c\") %><% } %><% } %><%= contentOf(\"c\") %>",
+		// a block replayed by hand, the way helper packages other than the library's own do it
+		"<% contentFor(\"a\") { %>x<%= c_again() %><% } %><%= contentOf(\"a\") %>", "<%= c_keep() { %>y<%= c_replayKept() %><% } %><%= c_replayKept() %>",
 		// the same through partials and template functions, and with much between two calls
 		"<%= partial(\"selfp\") %>", "<% let f = fn() { return partial(\"callsf\") } %><%= f() %>",
 		"<% let f = fn() { " + strings.Repeat("if (true) { ", 100) + "return f()" + strings.Repeat(" }", 100) + " } %><%= f() %>",
